@@ -5,6 +5,7 @@ package main
 
 import (
 	"bufio"
+	"context"
 	"fmt"
 	"io"
 	"os"
@@ -46,6 +47,7 @@ type Solver struct {
 	Kind  string // z3, z3-new, cvc5
 	alive bool
 	needPop bool
+	cvcTried, cvcWon int // adaptive use of the cvc5 integer-encoding attempt
 	dirty   bool // base level holds assertions of a reset-mode query
 	Local SolverStats
 }
@@ -168,8 +170,10 @@ func (s *Solver) Check(script string, timeoutMs int, wantVals []string) (SatResu
 	}
 	// arithmetic-heavy queries (index/length reasoning) that stall bit-blasting are often immediate for
 	// cvc5's integer encoding of bit-vectors (mod-2^k semantics kept): short one-shot attempt
-	if timeoutMs > 400 && os.Getenv("GOSMT_NOCVC5") == "" && !strings.Contains(script, "; symshift") {
+	if timeoutMs > 400 && os.Getenv("GOSMT_NOCVC5") == "" && !strings.Contains(script, "; symshift") && (s.cvcTried < 6 || s.cvcWon*3 >= s.cvcTried) {
+		s.cvcTried++
 		if r, v, ok := cvc5IntShot(script, wantVals, 1500); ok {
+			s.cvcWon++
 			atomic.AddInt64(&globalStats.Queries, 1)
 			atomic.AddInt64(&globalStats.ByCvc5Int, 1)
 			s.Local.Queries++
@@ -191,7 +195,10 @@ func cvc5IntShot(script string, wantVals []string, timeoutMs int) (SatResult, []
 	if len(wantVals) > 0 {
 		sb.WriteString("(get-value (" + strings.Join(wantVals, " ") + "))\n")
 	}
-	cmd := exec.Command("cvc5", "--lang=smt2", "--solve-bv-as-int=sum", fmt.Sprintf("--tlimit=%d", timeoutMs))
+	// cvc5 does not always honour --tlimit during preprocessing: hard deadline on the process
+	cctx, cancel := context.WithTimeout(context.Background(), time.Duration(timeoutMs+1000)*time.Millisecond)
+	defer cancel()
+	cmd := exec.CommandContext(cctx, "cvc5", "--lang=smt2", "--solve-bv-as-int=sum", fmt.Sprintf("--tlimit=%d", timeoutMs))
 	cmd.Stdin = strings.NewReader(sb.String())
 	out, _ := cmd.Output()
 	o := strings.TrimSpace(string(out))
